@@ -18,6 +18,7 @@ from rig import env, driver, shim, audit, h11util
 
 env.quiet_logging()
 
+from proxy.http.server import HttpWebServerBasePlugin, httpProtocolTypes    # noqa: E402
 from rig.steprig import StepRig, make_flags, LoopDied      # noqa: E402
 
 PROPERTY = 'C13'
@@ -59,6 +60,17 @@ TREE = {
     'sub/c.txt': 'DECOY parent sub/c.txt',
 }
 _state: Dict[str, Any] = {}
+KEPT = b'HTTP/1.1 200 OK\r\nContent-Length: 4\r\nX-Route: keep\r\n\r\nkept'
+
+
+class KeepRoute(HttpWebServerBasePlugin):
+    """A web route next to the static server; its keep-alive reply leaves the connection open for follow-up requests."""
+
+    def routes(self) -> List[Tuple[int, str]]:
+        return [(httpProtocolTypes.HTTP, r'/keep$')]
+
+    def handle_request(self, request: Any) -> None:
+        self.client.queue(memoryview(KEPT))
 
 
 def begin(tier: str) -> None:
@@ -78,6 +90,8 @@ def begin(tier: str) -> None:
         data = open(full, 'rb').read()
         (_state['inside'] if rel.startswith('public/') else _state['decoys'])[full] = data
     _state['flags'] = make_flags(['--enable-static-server', '--static-server-dir', root], cache_key='c13:' + root)
+    _state['flags_routed'] = make_flags(['--enable-static-server', '--static-server-dir', root], plugins=[KeepRoute],
+                                        cache_key='c13r:' + root)
 
 
 def end() -> None:
@@ -103,17 +117,35 @@ def expected_files(path: bytes) -> List[str]:
     return out
 
 
-def fetch(path: bytes) -> Dict[str, Any]:
-    rig = StepRig(_state['flags'], 'local')
+def fetch(path: bytes, position: str = 'first') -> Dict[str, Any]:
+    """position: 'first' = only request of its connection (static server alone); 'routed-first' = the same with a web route
+    configured next to it; 'after-route' = follow-up on a keep-alive connection whose first request was answered by a route;
+    'pipelined' = the same with both requests in one segment."""
+    rig = StepRig(_state['flags'] if position == 'first' else _state['flags_routed'], 'local')
     alog = audit.start()
     try:
         c = rig.add_client('unix')
-        c.send(b'GET ' + path + b' HTTP/1.1\r\nHost: static.test\r\n\r\n')
+        req = b'GET ' + path + b' HTTP/1.1\r\nHost: static.test\r\n\r\n'
+        lead = b'GET /keep HTTP/1.1\r\nHost: static.test\r\n\r\n'
+        skip = 0
+        if position == 'after-route':
+            c.send(lead)
+            rig.until(lambda: len(c.rx) >= len(KEPT) or c.ended, [c], idle_timeout=0.25)
+            skip = len(KEPT)
+            c.send(req)
+        elif position == 'pipelined':
+            c.send(lead + req)
+            skip = len(KEPT)
+        else:
+            c.send(req)
         rig.until(lambda: c.ended, [c], idle_timeout=0.25)
         audit.stop()
         opened = [a[0] for (ev, a) in alog if ev == 'open' and isinstance(a[0], (str, bytes))]
-        msgs, err, left = h11util.parse_responses(bytes(c.rx), [b'GET'], eof=c.ended)
-        return {'raw': bytes(c.rx), 'msgs': msgs, 'err': err, 'left': left, 'ended': c.ended, 'opened': opened, 'died': None}
+        if skip and bytes(c.rx[:skip]) != KEPT:
+            return {'raw': bytes(c.rx), 'msgs': [], 'err': 'route reply missing', 'left': b'', 'ended': c.ended, 'opened': opened,
+                    'died': None, 'lead_missing': True}
+        msgs, err, left = h11util.parse_responses(bytes(c.rx[skip:]), [b'GET'], eof=c.ended)
+        return {'raw': bytes(c.rx[skip:]), 'msgs': msgs, 'err': err, 'left': left, 'ended': c.ended, 'opened': opened, 'died': None}
     except LoopDied as e:
         return {'raw': b'', 'msgs': [], 'err': None, 'left': b'', 'ended': False, 'opened': [], 'died': e.where()}
     finally:
@@ -155,8 +187,10 @@ def classify_path(path: bytes) -> str:
     return '+'.join(f) or 'plain'
 
 
-def judge(path: bytes, r: Dict[str, Any]) -> List[Tuple[str, Any]]:
+def judge(path: bytes, r: Dict[str, Any], demand_service: bool = True) -> List[Tuple[str, Any]]:
     bad: List[Tuple[str, Any]] = []
+    if r.get('lead_missing'):
+        return [('route-reply-missing-before-follow-up', r['raw'][:80])]
     code, body = outcome(path, r)
     exp = expected_files(path)
     decoys = _state['decoys']
@@ -184,7 +218,7 @@ def judge(path: bytes, r: Dict[str, Any]) -> List[Tuple[str, Any]]:
         # for every other spelling both 404 and 200-with-the-right-file are acceptable, and a path starting
         # with '//' is a scheme-relative *proxy* target that never reaches the static server at all.
         nq = path.split(b'?', 1)[0]
-        canonical = (b'%' not in nq and b'..' not in nq and b'//' not in nq and b'/./' not in nq and b'\\' not in nq
+        canonical = demand_service and (b'%' not in nq and b'..' not in nq and b'//' not in nq and b'/./' not in nq and b'\\' not in nq
                      and not nq.endswith((b'/.', b'/')) and b'\x00' not in nq)
         if code == '404':
             if exp and canonical:
@@ -232,6 +266,16 @@ def run_case(case: Dict[str, Any]) -> Dict[str, Any]:
                 for (what, d) in judge(path + q, r2):
                     key = '%s|%s+query' % (what, cl)
                     viol.setdefault(key, {'key': key, 'detail': {'path': path + q, 'diff': d}})
+        for pos in case.get('positions', ()):
+            # the same path asked at another position of a connection that also has a web route: confinement must hold for
+            # every request, not only the first of a connection (service itself is only demanded at the first position)
+            r3 = fetch(path, pos)
+            c3, _b3 = outcome(path, r3)
+            obs['pos:%s' % pos] = obs.get('pos:%s' % pos, 0) + 1
+            obs['pos_status:%s:%s' % (pos, c3)] = obs.get('pos_status:%s:%s' % (pos, c3), 0) + 1
+            for (what, d) in judge(path, r3, demand_service=(pos == 'routed-first')):
+                key = '%s|%s@%s' % (what, cl, pos)
+                viol.setdefault(key, {'key': key, 'detail': {'path': path, 'diff': d, 'status': c3, 'position': pos}})
         if len(sample) < 3 and cl != 'plain':
             sample.append({'path': path, 'status': code, 'opened': [str(o)[-40:] for o in r['opened'][:3]]})
     obs['nontrivial_paths'] = nontriv
@@ -257,10 +301,13 @@ def cases(tier: str, seed: int):
     i = 0
     toks = TOKENS
 
-    def emit(paths: List[str], queries: int = 0) -> Dict[str, Any]:
+    def emit(paths: List[str], queries: int = 0, positions: Any = None) -> Dict[str, Any]:
         nonlocal i
         i += 1
-        return {'seed': seed, 'i': i, 'paths': paths, 'queries': queries}
+        if positions is None:
+            # every third block is repeated at the other positions (all blocks in the thorough tier)
+            positions = ['routed-first', 'after-route', 'pipelined'] if (tier != 'quick' or i % 3 == 0 or i <= 3) else []
+        return {'seed': seed, 'i': i, 'paths': paths, 'queries': queries, 'positions': positions}
     # plain existing files (non-vacuity) with query variants
     yield emit(['/a.txt', '/index.html', '/big.bin', '/sub/c.txt', '/sub/deep/d.txt', '/sub/secret.txt', '/file.with.dots',
                 '/..hidden', '/%41.txt', '/public/x.txt', '/nope', '/', '/sub', '/sub/'], queries=40)
@@ -307,7 +354,8 @@ def _join(combo: Any) -> List[str]:
 
 def floors(tier: str) -> Dict[str, int]:
     return {'paths': 3000, 'status:200': 40, 'status:404': 1000, 'nontrivial_paths': 1000, 'open_events': 1000,
-            'query_variants': 1500, 'distinct:path_classes': 10}
+            'query_variants': 1500, 'distinct:path_classes': 10,
+            'pos:routed-first': 800, 'pos:after-route': 800, 'pos:pipelined': 800}
 
 
 if __name__ == '__main__':
